@@ -243,8 +243,9 @@ def run(facts):
         check_default_vectored(res, facts)
     check_helpers(res, facts, has_std)
     check_defaults(res, facts, single)
+    check_copy_defaults(res, facts)
     check_iter(res, facts)
-    res.floor("leaf_instances", len(res.instances), 20 if has_std else 14)
+    res.floor("leaf_instances", len(res.instances), 18 if has_std else 13)
     return res
 
 
@@ -405,6 +406,89 @@ def check_default_vectored(res, facts):
     if not any(callname(peel(c[1][0])) == "chunk" and is_self(peel(c[1][0])[2][0]) for c in news):
         probs.append("the listed slice is not self.chunk()")
     (res.bad if probs else res.ok)(key, b.loc(), "; ".join(sorted(set(probs))) if probs else "dst[0] = chunk() when bytes remain and dst is non-empty")
+
+
+def check_copy_defaults(res, facts):
+    """default copy_to_bytes = with_capacity(len) + put(self.take(len)) + freeze under len <= remaining();
+    default copy_to_slice = try_copy_to_slice(dst) or panic; <&[u8]>::copy_to_slice copies dst.len() bytes from the
+    front and advances by dst.len() under dst.len() <= len"""
+    # --- Buf::copy_to_bytes
+    b = find(facts, "buf::buf_impl::Buf::copy_to_bytes")
+
+    def ctb_probs(v):
+        probs = []
+        puts = calls_of(v, facts, "put")
+        frz = calls_of(v, facts, "freeze")
+        if len(puts) != 1 or len(frz) != 1:
+            return ["expected one put(..) into the fresh buffer and one freeze()"]
+        bi, a = puts[0]
+        src = peel(a[1])
+        is_take = (aggname(src).endswith("::Take") and peel(src[2][0]) == P1 and uncast(src[2][1]) == P2) or \
+                  (callname(src) == "take" and peel(src[2][0]) == P1 and uncast(src[2][1]) == P2)
+        if not is_take:
+            probs.append("the bytes are not taken from self.take(len): %s" % fmt_expr(src)[:60])
+        dst = peel(a[0])
+        if not (callname(dst) in ("with_capacity", "new") and (callname(dst) == "new" or uncast(dst[2][0]) == P2)):
+            probs.append("the destination is not a fresh BytesMut::with_capacity(len)")
+        if peel(frz[0][1][0]) != dst:
+            probs.append("the returned Bytes is not the buffer that was filled")
+        ctx = Ctx(v, bi, facts)
+        rem = [x for r in ctx.rels for x in r[1:3] if isinstance(x, tuple) and callname(x) == "remaining" and is_self(x[2][0])]
+        if not any(ctx.le(P2, x) for x in rem):
+            probs.append("no check len <= remaining() before copying (a short source would return fewer bytes than asked)")
+        return probs
+    decide_views(res, facts, b, b.id + "|default copies exactly len bytes", ctb_probs, "len <= remaining(); with_capacity(len).put(self.take(len)).freeze()")
+    # --- Buf::copy_to_slice
+    b = find(facts, "buf::buf_impl::Buf::copy_to_slice")
+
+    def cts_probs(v):
+        cs = calls_of(v, facts, "try_copy_to_slice")
+        if len(cs) != 1 or peel(cs[0][1][0]) != P1 or peel(cs[0][1][1]) != P2:
+            return ["does not delegate to self.try_copy_to_slice(dst)"]
+        users = [c for nm in ("unwrap_or_else", "unwrap", "expect") for c in calls_of(v, facts, nm) if callname(peel(c[1][0])) == "try_copy_to_slice"]
+        matched = any(t["k"] == "switch" for _, t in v.terms()) and calls_of(v, facts, "panic_advance")
+        if not users and not matched:
+            return ["the Err of try_copy_to_slice is not turned into a panic"]
+        return []
+    decide_views(res, facts, b, b.id + "|default = try_copy_to_slice or panic", cts_probs, "try_copy_to_slice(dst).unwrap_or_else(panic)")
+    # --- <&[u8]>::copy_to_slice
+    b = find(facts, "<&[u8] as buf::buf_impl::Buf>::copy_to_slice")
+
+    def slice_probs(v):
+        probs = []
+        cp = calls_of(v, facts, "copy_from_slice")
+        adv = calls_of(v, facts, "advance")
+        if len(cp) != 1 or len(adv) != 1:
+            return ["expected one copy_from_slice and one advance"]
+        bi, a = cp[0]
+        dlen = ("call", "core::slice::<impl [T]>::len", (P2,))
+
+        def is_dlen(x):
+            x = uncast(x)
+            return callname(x) == "len" and peel(x[2][0]) == P2
+        src = peel(a[1])
+        ok_src = callname(src) == "index" and is_self(src[2][0]) and aggname(src[2][1]).endswith("RangeTo") and is_dlen(src[2][1][2][0])
+        if not (peel(a[0]) == P2 and ok_src):
+            probs.append("does not copy self[..dst.len()] into dst: %s" % fmt_expr(src)[:60])
+        if not (is_self(adv[0][1][0]) and is_dlen(adv[0][1][1])):
+            probs.append("does not advance by dst.len()")
+        return probs
+    decide_views(res, facts, b, b.id + "|copies and consumes dst.len() bytes", slice_probs, "dst.copy_from_slice(&self[..dst.len()]); advance(dst.len())")
+
+
+def decide_views(res, facts, b, key, probs_fn, how):
+    from .inline import views
+    probs = probs_fn(b)
+    note = ""
+    if probs:
+        for ib in views(facts, b):
+            if not probs_fn(ib):
+                probs, note = [], " (with helpers inlined)"
+                break
+    if probs:
+        res.bad(key, b.loc(), "; ".join(probs))
+    else:
+        res.ok(key, b.loc(), how + note, nontrivial=True)
 
 
 def check_iter(res, facts):
